@@ -1,11 +1,20 @@
 (** Runner entry point for the C13 correspondence.
 
-    [run_c13 (run :: masters :: layouts :: slides :: notesmaster :: ops)]
+    [run_c13 (run :: masters :: layouts :: package :: notesmaster :: ops)]
       masters      trees separated by slash; a tree = shapes separated by semicolon
       layouts      separated by slash; each = master-index ; shape ; shape ...
-      slides       layout indices of the slides already in the deck, space separated
+      package      the presentation part as the file has it (before prs.slides renames anything),
+                   four lists separated by semicolon, entries separated by a space, strings dotted
+                   (code points joined by a full stop):
+                     parts   kind,name        kind = layout index of a slide part, minus sign otherwise
+                     rels    rId,class,target class s slide / n notes master / o other / x external;
+                                              target = position in parts (minus sign when external)
+                     sldIds  id,rId
+                     xrefs   rId              every other r:id value in the presentation XML
       notesmaster  a tree, or a single minus sign when the deck has none
       ops          one field each:
+                     R i | U i | S                         delete slide i (drop_rel + p:sldId) /
+                                                           remove the p:sldId only / save and re-open
                      A l | N s | X s x y cx cy            add slide / notes slide / text box
                      P s l i                               clone placeholder i of layout l onto slide s
                      E tgt a b e ...                       edit; tgt: s a=slide b=shape, n notes,
@@ -19,7 +28,8 @@
     [run_c13 (tables :: nil)] prints the uncovered types of the three literal dicts. *)
 From V.lib Require Import Prelude Wire.
 From V.gen Require Import GenC13.
-From V.model Require Import Placeholder.
+From V.model Require Import Placeholder PlaceholderPkg.
+From V.model Require Ids PkgOps.
 
 Definition sp : str := [32%N].
 Definition c_semi : N := 59%N.
@@ -194,12 +204,135 @@ Definition show_unit (u : unit) : str := [].
 Definition c_at : N := 64%N.
 Definition c_hash : N := 35%N.
 
-Fixpoint run_steps (c : cfg) (d : deck) (ops : list op) : list str :=
+(** ** the presentation part *)
+Definition c_dot46 : N := 46%N.
+Definition c_gt : N := 62%N.
+Definition c_q : N := 63%N.
+
+Definition parse_dotted (s : str) : option str :=
+  match s with
+  | [] => Some []
+  | _ => all_some (map parse_N (split_on c_dot46 s))
+  end.
+
+Definition parse_list {A} (f : str -> option A) (s : str) : option (list A) :=
+  match s with
+  | [] => Some []
+  | _ => all_some (map f (split_on 32%N s))
+  end.
+
+Definition parse_ppart (f : str) : option ppart :=
+  match split_on c_comma f with
+  | [k; n] =>
+      match parse_dotted n with
+      | Some n => if is_minus k then Some (mk_ppart n None)
+                  else option_map (fun l => mk_ppart n (Some (mk_slide l [] None))) (parse_nat k)
+      | None => None
+      end
+  | _ => None
+  end.
+
+Definition parse_rel (f : str) : option PkgOps.relr :=
+  match split_on c_comma f with
+  | [r; k; t] =>
+      match parse_dotted r with
+      | Some r =>
+          let ty := if str_eqb k [115%N] then PkgOps.rt_slide
+                    else if str_eqb k [110%N] then PkgOps.rt_notes_master else k in
+          if str_eqb k [120%N] then Some (PkgOps.mkR r ty (PkgOps.TExt []) None)
+          else option_map (fun p => PkgOps.mkR r ty (PkgOps.TInt p) None) (parse_nat t)
+      | None => None
+      end
+  | _ => None
+  end.
+
+Definition parse_sldId (f : str) : option (Z * str) :=
+  match split_on c_comma f with
+  | [i; r] => match parse_Z i, parse_dotted r with Some i, Some r => Some (i, r) | _, _ => None end
+  | _ => None
+  end.
+
+Definition parse_pkg (f : str) : option (list ppart * list PkgOps.relr * list (Z * str) * list str) :=
+  match split_on c_semi f with
+  | [a; b; c; d] =>
+      match parse_list parse_ppart a, parse_list parse_rel b, parse_list parse_sldId c, parse_list parse_dotted d with
+      | Some a, Some b, Some c, Some d => Some (a, b, c, d)
+      | _, _, _, _ => None
+      end
+  | _ => None
+  end.
+
+Definition parse_pop (f : str) : option pop :=
+  match split_on 32%N f with
+  | [[82%N]; i] => option_map Remove (parse_nat i)              (* R i *)
+  | [[85%N]; i] => option_map Unlist (parse_nat i)              (* U i *)
+  | [[83%N]] => Some SaveReopen                                 (* S *)
+  | _ => option_map Op (parse_op f)
+  end.
+
+(** slide parts numbered by their first occurrence among the slide relationships (dict order):
+    object identity up to renaming, the same on both sides *)
+Definition canon (ps : pres) : list nat := dedup_nat (PkgOps.typed_targets [PkgOps.rt_slide] (p_rels ps)).
+
+Fixpoint index_of (p : nat) (l : list nat) : option nat :=
+  match l with
+  | [] => None
+  | x :: l' => if Nat.eqb x p then Some O else option_map S (index_of p l')
+  end.
+
+Definition show_canon (ps : pres) (p : nat) : str :=
+  match index_of p (canon ps) with Some k => show_nat k | None => [c_q] end.
+
+Definition is_slide_rel (r : PkgOps.relr) : option nat :=
+  if str_eqb (PkgOps.rr_type r) PkgOps.rt_slide
+  then match PkgOps.rr_tgt r with PkgOps.TInt p => Some p | PkgOps.TExt _ => None end
+  else None.
+
+Definition show_part_slide (c : cfg) (ps : pres) (p : nat) : str :=
+  match slide_of ps p with
+  | Ok sl => show_slide c (p_deck ps) sl
+  | Err _ => [c_q]
+  end.
+
+Definition show_entry (c : cfg) (ps : pres) (i : nat) : str :=
+  match slide_at ps i with
+  | Ok (_, sl) => show_slide c (p_deck ps) sl
+  | Err e => [c_q] ++ show_err e
+  end.
+
+Definition show_pkg (ps : pres) : str :=
+  join_with [c_semi]
+    [join_with [c_comma] (map (fun e => show_Z (fst e) ++ sp ++ snd e) (p_ids ps));
+     join_with [c_comma] (map (fun r => PkgOps.rr_id r ++
+                                  match is_slide_rel r with Some p => [c_gt] ++ show_canon ps p | None => [] end)
+                              (p_rels ps));
+     join_with [c_comma] (map (name_of ps) (canon ps))].
+
+Definition show_pres (c : cfg) (ps : pres) : str :=
+  let d := p_deck ps in
+  fields
+    [join_with [c_bang] (map (show_entry c ps) (seq 0 (length (p_ids ps))));
+     join_with [c_bang]
+       (flat_map (fun r => match is_slide_rel r with
+                           | Some p => if mem_str (PkgOps.rr_id r) (map snd (p_ids ps)) then []
+                                       else [show_canon ps p ++ [c_colon] ++ show_part_slide c ps p]
+                           | None => []
+                           end) (p_rels ps));
+     join_with [c_bang] (map (fun L => show_tree (fun a s => layout_eff c a (nth (l_master L) (d_masters d) []) s) (l_shapes L))
+                             (d_layouts d));
+     join_with [c_bang] (map (show_tree (fun a s => Ok (own a s))) (d_masters d));
+     match d_notes_master d with
+     | None => [c_minus]
+     | Some nm => show_tree (fun a s => Ok (own a s)) nm
+     end;
+     show_pkg ps].
+
+Fixpoint run_steps (c : cfg) (ps : pres) (ops : list pop) : list str :=
   match ops with
   | [] => []
   | o :: ops' =>
-      let '(d', r) := step c d o in
-      (show_res show_unit r ++ [c_at] ++ show_deck c d') :: run_steps c d' ops'
+      let '(ps', r) := pstep c ps o in
+      (show_res show_unit r ++ [c_at] ++ show_pres c ps') :: run_steps c ps' ops'
   end.
 
 Definition op_run : str := [114; 117; 110]%N.                       (* run *)
@@ -215,14 +348,18 @@ Definition run_c13 (args : list str) : str :=
                 show_Ns (missing (c_lmmap gen_cfg)); show_Ns (c_latent gen_cfg);
                 show_Ns (c_notes_cloneable gen_cfg); show_Ns (c_txbody gen_cfg)]
       else w_badcase
-  | o :: ms :: ls :: ss :: nm :: opfs =>
+  | o :: ms :: ls :: pk :: nm :: opfs =>
       if str_eqb o op_run then
-        match parse_trees ms, parse_layouts ls, parse_nats ss,
+        match parse_trees ms, parse_layouts ls, parse_pkg pk,
               (if is_minus nm then Some None else option_map Some (parse_tree nm)),
-              all_some (map parse_op opfs) with
-        | Some ms, Some ls, Some ss, Some nm, Some ops =>
-            let d := mk_deck ms ls (map (fun l => mk_slide l [] None) ss) [] nm in
-            join_with [c_hash] ((w_ok ++ [c_at] ++ show_deck gen_cfg d) :: run_steps gen_cfg d ops)
+              all_some (map parse_pop opfs) with
+        | Some ms, Some ls, Some (parts, rels, ids, xrefs), Some nm, Some ops =>
+            let raw := mk_pres (mk_deck ms ls [] [] nm) parts rels ids xrefs in
+            (* loading ends with the first access of prs.slides *)
+            match prename raw with
+            | Ok ps => join_with [c_hash] ((w_ok ++ [c_at] ++ show_pres gen_cfg ps) :: run_steps gen_cfg ps ops)
+            | Err e => w_err ++ show_err e
+            end
         | _, _, _, _, _ => w_badcase
         end
       else w_badcase
